@@ -751,22 +751,23 @@ class Library:
             to, frm = parse_type(m.group(1)), parse_type(m.group(2))
             return T.zext(frm.bits, to.bits, args[0])
 
-        @reg(r'^<(.*) as Into<(Color|Shape|ConvertError)>>::into$|^<(Shape|SvgError|ImageError) as Into<(.*)>>::into$', 'Into -> crate From impl (blanket impl)')
-        def _into_from(fr, name, args, ops):
+        @reg(r'^<(.*) as Into<(.*)>>::into$', 'Into (blanket impl over a crate From impl, or integer widening)')
+        def _into(fr, name, args, ops):
             m = re.match(r'^<(.*) as Into<(.*)>>::into$', name)
             x, y = m.group(1), m.group(2)
-            f = I.prog.resolve('<%s as From<%s>>::from' % (y, x))
-            if f is None:
-                raise Unsupported('no From<%s> for %s' % (x, y))
-            return I.call_fn(f, list(args))
-
-        @reg(r'^<(\w+) as Into<(\w+)>>::into$', 'Into (integer widening)')
-        def _into_int(fr, name, args, ops):
-            m = re.match(r'^<(\w+) as Into<(\w+)>>', name)
-            frm, to = parse_type(m.group(1)), parse_type(m.group(2))
+            try:
+                f = I.prog.resolve('<%s as From<%s>>::from' % (y, x))
+            except Unsupported:
+                f = None
+            if f is not None:
+                return I.call_fn(f, list(args))
+            try:
+                frm, to = parse_type(x), parse_type(y)
+            except Exception:
+                raise Unsupported('Into %s' % name)
             if frm.kind in ('int', 'bool', 'char') and to.kind == 'int':
                 return T.zext(frm.bits, to.bits, args[0])
-            raise Unsupported('Into %s' % name)
+            raise Unsupported('no From<%s> for %s in the crate' % (x, y))
 
         @reg(r'^core::num::<impl u8>::is_ascii_digit$|^core::char::methods::<impl u8>::is_ascii_digit$', 'u8::is_ascii_digit')
         def _is_digit(fr, name, args, ops):
